@@ -237,6 +237,22 @@ PROPS["C13"] = dict(
     assumptions=["the rendering theorem is stated for attribute trees in which no group consists only of vanishing members (such a group leaves a dangling ' |': model and code agree, the flat reading does not)"],
 )
 
+PROPS["C14"] = dict(
+    n_quick=480, n_thorough=40000, shards=16, coq_dirs=["C14"], no_shrink=True,
+    rule="cases, each in a child process under strace -f in a fresh directory (destination pre-seeded, absent, or a non-empty directory so "
+         "that the rename fails): (50%) safe.WriteFileWithMode with 0-4 writer calls of sizes {0,1,10,4096,50000,65535,65536,65537,70000,"
+         "131072,200000}, modes {644,600,755,666,400} under umask 022, the writer failing after k calls in a third of the cases; (30%) the "
+         "File API with 1-6 operations among Write, Commit, Close in any order; (20%) WriteFile with the child SIGKILLed on entering the n-th "
+         "write/close/renameat/openat (strace inject). Compared: the system calls on the temporary file as strace logged them (exclusive "
+         "create, write sizes, close, rename, unlink), every returned value, the destination's content and mode and leftover files. "
+         "non-trivial = every case; distinct = distinct case text",
+    trivial_class=r"(^bad$|^exn$)",
+    trusted_base=["strace's log of the child's system calls (paths and descriptors of the temporary file in the destination's directory) is the observed trace",
+                  "rename(2) replaces the destination atomically and a killed process loses no completed system call: OS facts the crash theorem relies on; power loss is outside the model",
+                  "bufio.Writer is modelled as far as the sizes of its write calls go (64 KiB buffer, large writes on an empty buffer pass through)"],
+    assumptions=["the temporary name differs from the destination's name (CreateTemp's 'safe' + random digits)"],
+)
+
 # properties not (yet) claimed, with the reason; an entry is dropped automatically once the property is in PROPS
 NOT_APPLICABLE = {
     "C%02d" % i: "not yet built in this development (model and correspondence harness pending); see DESIGN.md section 22"
@@ -244,6 +260,18 @@ NOT_APPLICABLE = {
 }
 
 MANIFEST_TEXT = {
+    "C14": dict(
+        level_text="Proof: for every list of writer calls, every failure point of the writer and either outcome of the rename, at every prefix of "
+                   "the system calls WriteFile issues (every crash point) the destination is its complete previous state or the complete new "
+                   "content with mode = requested & ~umask; on success exactly the bytes written are published and no temporary file remains; "
+                   "on failure of the writer or of the commit the error is returned, the destination is untouched and no temporary file "
+                   "remains; the File API in any order of Write/Commit/Close never exposes anything but the old file or a renamed complete "
+                   "temporary file, Close without Commit discards, calls after Commit are inert -- Coq theorems over a system-call-level "
+                   "model (bufio's write sizes included). The model's call list is compared with strace's log of the real run, together "
+                   "with returned values and the resulting directory; children are SIGKILLed at injected system calls.",
+        level_note="Partial: atomicity of rename(2) and durability across power loss are OS behaviour outside the model; crash points are "
+                   "system-call boundaries; write errors from the OS (disk full) are not injected.",
+        technique="Coq proof (prefix-closed reasoning over system-call lists; byte conservation of the buffered writer) on a hand-written Gallina model + strace-based differential correspondence check"),
     "C13": dict(
         level_text="Proof: the line rendered for a record is the level tag, timestamp and message followed by every leaf attribute of the "
                    "derivation chain and of the record exactly once, in order, prefixed by the groups in force, empty groups and the empty "
